@@ -5,6 +5,7 @@ multiversx_sc::derive_imports!();
 
 pub mod external_interaction;
 
+use common_errors::ERROR_NOT_ACTIVE;
 use common_structs::FarmTokenAttributes;
 use contexts::storage_cache::StorageCache;
 use core::marker::PhantomData;
@@ -185,6 +186,8 @@ pub trait Farm:
         &self,
         opt_orig_caller: OptionalValue<ManagedAddress>,
     ) -> DoubleMultiPayment<Self::Api> {
+        require!(self.is_active(), ERROR_NOT_ACTIVE);
+
         let caller = self.blockchain().get_caller();
         let orig_caller = self.get_orig_caller_from_opt(&caller, opt_orig_caller);
 
